@@ -29,6 +29,77 @@ package jid
 //@   ensures result >= 0 ==> forall j int :: 0 <= j && j < result ==> s[j] != byte(r)
 //@   ensures result == -1 ==> forall j int :: 0 <= j && j < len(s) ==> s[j] != byte(r)
 
+//@ extern (*golang.org/x/text/secure/precis.Profile).Append
+//@   modifies dst[*]
+//@   ensures result1 == nil ==> len(result0) >= len(dst)
+//@   ensures result1 == nil ==> forall k int :: 0 <= k && k < len(dst) ==> result0[k] == old(dst[k])
+
+// ---------------------------------------------------------------------------
+// addresses (jid.go)
+
+// Representation invariant of JID values: the three parts are consecutive
+// ranges of data. Assumed for every JID a function receives, proved for every
+// JID a function of this package returns.
+//@ typeinv JID: 0 <= self.locallen && 0 <= self.domainlen && self.locallen + self.domainlen <= len(self.data)
+
+// Splitting: the first '/' separates the resourcepart, then the first '@' of
+// what remains separates the localpart.
+//@ extern strings.Index
+//@   pure
+//@   ensures -1 <= result && result + len(substr) <= len(s)
+//@   ensures len(substr) == 1 && result >= 0 ==> s[result] == substr[0] && (forall j int :: 0 <= j && j < result ==> s[j] != substr[0])
+//@   ensures len(substr) == 1 && result == -1 ==> forall j int :: 0 <= j && j < len(s) ==> s[j] != substr[0]
+
+//@ spec noByte(s string, c byte) bool = forall k int :: 0 <= k && k < len(s) ==> s[k] != c
+//@ spec isFirst(s string, c byte, i int) bool = 0 <= i && i < len(s) && s[i] == c && (forall k int :: 0 <= k && k < i ==> s[k] != c)
+//@ spec splitAt(rest string, localpart string, domainpart string) bool = (noByte(rest, '@') ==> localpart == "" && domainpart == rest) && (forall a int :: isFirst(rest, '@', a) ==> localpart == rest[:a] && domainpart == rest[a+1:])
+
+//@ func splitString
+//@   ensures[C11] err == nil && noByte(s, '/') ==> resourcepart == "" && splitAt(s, localpart, domainpart)
+//@   ensures[C11] err == nil ==> forall i int :: isFirst(s, '/', i) ==> resourcepart == s[i+1:] && splitAt(s[:i], localpart, domainpart)
+//@   ensures[C11] safe ==> (err != nil <==> (exists i int :: isFirst(s, '/', i) && i == len(s)-1) || (noByte(s, '/') && isFirst(s, '@', 0)) || (exists i int :: isFirst(s, '/', i) && i != len(s)-1 && isFirst(s[:i], '@', 0)))
+//@   ensures[C11] !safe ==> err == nil
+
+//@ spec forbidLocal(c byte) bool = c == '"' || c == '&' || c == '\'' || c == '/' || c == ':' || c == '<' || c == '>' || c == '@'
+
+//@ func localChecks
+//@   ensures[C11] result == nil <==> len(localpart) <= 1023 && (forall k int :: 0 <= k && k < len(localpart) ==> !forbidLocal(localpart[k]))
+
+//@ func resourceChecks
+//@   ensures[C11] result == nil <==> len(resourcepart) <= 1023
+
+//@ func normalizeDomainpart
+//@   ensures[C11] result1 == nil ==> 1 <= len(result0) && len(result0) <= 1023
+
+// Every address built by New obeys the RFC 7622 length limits, has a
+// non-empty domainpart and no forbidden character in its localpart.
+//@ func New
+//@   ensures[C11] result1 == nil ==> 1 <= result0.domainlen && result0.domainlen <= 1023 && result0.locallen <= 1023 && len(result0.data) - result0.locallen - result0.domainlen <= 1023
+//@   ensures[C11] result1 == nil ==> forall k int :: 0 <= k && k < result0.locallen ==> !forbidLocal(result0.data[k])
+
+// Accessors agree with one another.
+//@ func (JID).Bare
+//@   ensures[C11] result.locallen == j.locallen && result.domainlen == j.domainlen && len(result.data) == j.locallen + j.domainlen
+//@   ensures[C11] forall k int :: 0 <= k && k < len(result.data) ==> result.data[k] == j.data[k]
+
+//@ func (JID).Domain
+//@   ensures[C11] result.locallen == 0 && result.domainlen == j.domainlen && len(result.data) == j.domainlen
+//@   ensures[C11] forall k int :: 0 <= k && k < len(result.data) ==> result.data[k] == j.data[j.locallen+k]
+
+//@ func (JID).Equal
+//@   ensures[C11] result <==> j.locallen == j2.locallen && j.domainlen == j2.domainlen && len(j.data) == len(j2.data) && (forall k int :: 0 <= k && k < len(j.data) ==> j.data[k] == j2.data[k])
+//@   loop 1
+//@     invariant 0 <= i && i <= len(j.data) && len(j.data) == len(j2.data)
+//@     invariant forall k int :: 0 <= k && k < i ==> j.data[k] == j2.data[k]
+
+//@ func (JID).String
+//@   ensures[C11] len(result) == len(j.data) + ite(j.locallen > 0, 1, 0) + ite(len(j.data) > j.locallen + j.domainlen, 1, 0)
+//@   ensures[C11] forall k int :: 0 <= k && k < j.locallen ==> result[k] == j.data[k]
+//@   ensures[C11] j.locallen > 0 ==> result[j.locallen] == '@'
+//@   ensures[C11] forall k int :: j.locallen <= k && k < j.locallen + j.domainlen ==> result[k+ite(j.locallen > 0, 1, 0)] == j.data[k]
+//@   ensures[C11] len(j.data) > j.locallen + j.domainlen ==> result[j.locallen+j.domainlen+ite(j.locallen > 0, 1, 0)] == '/'
+//@   ensures[C11] forall k int :: j.locallen + j.domainlen <= k && k < len(j.data) ==> result[k+1+ite(j.locallen > 0, 1, 0)] == j.data[k]
+
 // ---------------------------------------------------------------------------
 // XEP-0106 escaping (escape.go)
 
@@ -126,3 +197,36 @@ package jid
 //@     invariant forall p int :: 0 <= p && p < n ==> !isE(src, p)
 //@     invariant !atEOF ==> !(n > len(src)-1 && undet(src, len(src)-1)) && !(n > len(src)-2 && undet(src, len(src)-2))
 //@     decreases len(src) - n
+
+// MustParse panics by design on an invalid address (documented API).
+//@ func MustParse
+//@   maypanic
+
+// Safety sweep (no panic on any input, representation invariant established):
+// every function of jid.go and unsafe.go.
+//@ nopanic [C11] (*JID).UnmarshalXML
+//@ nopanic [C11] (*JID).UnmarshalXMLAttr
+//@ nopanic [C11] (JID).Bare
+//@ nopanic [C11] (JID).Copy
+//@ nopanic [C11] (JID).Domain
+//@ nopanic [C11] (JID).Domainpart
+//@ nopanic [C11] (JID).Equal
+//@ nopanic [C11] (JID).Localpart
+//@ nopanic [C11] (JID).MarshalXML
+//@ nopanic [C11] (JID).MarshalXMLAttr
+//@ nopanic [C11] (JID).Network
+//@ nopanic [C11] (JID).Resourcepart
+//@ nopanic [C11] (JID).String
+//@ nopanic [C11] (JID).WithDomain
+//@ nopanic [C11] (JID).WithLocal
+//@ nopanic [C11] (JID).WithResource
+//@ nopanic [C11] MustParse
+//@ nopanic [C11] New
+//@ nopanic [C11] NewUnsafe
+//@ nopanic [C11] Parse
+//@ nopanic [C11] ParseUnsafe
+//@ nopanic [C11] SplitString
+//@ nopanic [C11] localChecks
+//@ nopanic [C11] normalizeDomainpart
+//@ nopanic [C11] resourceChecks
+//@ nopanic [C11] splitString
